@@ -35,9 +35,9 @@ func monC05(c *drv.Ctx) {
 		case 0:
 			return writerOpts{}
 		case 1:
-			return writerOpts{failAt: 1}
+			return writerOpts{failAt: 1, failMode: cs.R.Intn(3)}
 		case 2:
-			return writerOpts{failAt: 2}
+			return writerOpts{failAt: 2, failMode: cs.R.Intn(3)}
 		}
 		return writerOpts{bytesWriter: true, initClass: k - 3, initLen: []int{0, 1, 100, 4095, 4096, 5000}[cs.R.Intn(6)]}
 	}
@@ -57,7 +57,7 @@ func monC05(c *drv.Ctx) {
 				ops = append(ops, wOp{Kind: wMalloc, N: 1}, wOp{Kind: wFlush}, wOp{Kind: wWriteBinary, N: 1}, wOp{Kind: wFlush})
 			}
 			o := cfg(cs, k)
-			cs.Desc = M{"ops": wOpsString(ops), "bytes_writer": o.bytesWriter, "init_class": o.initClass, "init_len": o.initLen, "sink_fail_at": o.failAt}
+			cs.Desc = M{"ops": wOpsString(ops), "bytes_writer": o.bytesWriter, "init_class": o.initClass, "init_len": o.initLen, "sink_fail_at": o.failAt, "sink_fail_mode": o.failMode}
 			nt := runWriterHistory(cs, ops, o)
 			cs.Count(nt, wOpsString(ops), k, o.initLen)
 			if nt && cs.WantSample() && cs.Idx%1201 == 2 {
@@ -90,8 +90,9 @@ func monC05(c *drv.Ctx) {
 				}
 			}
 			o.failAt = 1 + r.Intn(nf+1)
+			o.failMode = r.Intn(3)
 		}
-		cs.Desc = M{"ops": wOpsString(ops), "bytes_writer": o.bytesWriter, "init_class": o.initClass, "init_len": o.initLen, "sink_fail_at": o.failAt}
+		cs.Desc = M{"ops": wOpsString(ops), "bytes_writer": o.bytesWriter, "init_class": o.initClass, "init_len": o.initLen, "sink_fail_at": o.failAt, "sink_fail_mode": o.failMode}
 		nt := runWriterHistory(cs, ops, o)
 		cs.Count(nt, wOpsString(ops), o)
 		if nt && cs.WantSample() && n < 10 && cs.Idx%173 == 1 {
@@ -114,7 +115,7 @@ func monC05(c *drv.Ctx) {
 			}
 		}
 		for k := 1; k <= total+1; k++ {
-			o := writerOpts{failAt: k}
+			o := writerOpts{failAt: k, failMode: k % 3}
 			cs.Desc = M{"ops": wOpsString(ops), "sink_fail_at": k}
 			runWriterHistory(cs, ops, o)
 		}
